@@ -409,6 +409,14 @@ func writeElementToken(encoder *xml.Encoder, elem xsel.Cursor) error {
 		},
 	}
 
+	if n.Space() == "" {
+		// encoding/xml never undeclares the default namespace: an element in no
+		// namespace below an element that declares one has to do so itself.
+		if parent, ok := elem.Parent().Node().(xsel.Element); ok && parent.Space() != "" {
+			t.Attr = append(t.Attr, xml.Attr{Name: xml.Name{Local: "xmlns"}, Value: ""})
+		}
+	}
+
 	for _, i := range elem.Attributes() {
 		attr := i.Node().(xsel.Attribute)
 		attrTok := xml.Attr{
